@@ -251,6 +251,10 @@ fn release(x: Option<Cc<Node>>, id: Option<u32>, cx: &Cx) {
     }
     let pop = PopReleasing(id);
     let was_last = id.map_or(false, |id| oracle::is_last(wd, id));
+    if wd.feat_on.get() {
+        let sn = rust_cc::verif::object_snapshot(&c);
+        wd.feature(FT_RELEASE, was_last as u64 | (wd.in_collection.get() as u64) << 1 | (wd.coll_drop_phase.get() as u64) << 2, (sn.mark as u64) | (sn.finalized as u64) << 8 | (sn.has_side_record as u64) << 9 | ((sn.tracing_counter.min(2)) as u64) << 10);
+    }
     let _ = api(Frame::ApiDrop, cx, "Cc::drop", move || drop(c));
     drop(pop);
     if let Some(id) = id {
@@ -411,6 +415,19 @@ pub fn exec(a: &Act, cx: &Cx) {
     }
     wd.tlog(|| format!("{:?}", a));
     bump(&wd.stats.ops);
+    if wd.feat_on.get() {
+        let k = a.kind().bytes().fold(0u64, |h, b| h.wrapping_mul(31).wrapping_add(b as u64));
+        let c = match cx {
+            Cx::Top => 0,
+            Cx::Fin(_) => 1,
+            #[cfg(feature = "cleaners")]
+            Cx::Action(_) => 2,
+            #[cfg(feature = "weak-ptrs")]
+            Cx::Closure(..) => 3,
+            Cx::Never(_) => 4,
+        };
+        wd.feature(FT_EXEC, k, c);
+    }
     match a {
         Act::New { dst, spec } => op_new(*dst, spec, cx),
         Act::NewCyclic { dst, spec, script, keep } => {
@@ -722,6 +739,7 @@ fn op_upgrade(src: WLoc, dst: Dst, cx: &Cx) {
         with_weak(src, cx, |x| x.upgrade())
     };
     let Some(res) = res else { return };
+    wd.feature(FT_UPGRADE, res.is_some() as u64, wd.coll_drop_phase.get() as u64 | (wd.in_collection.get() as u64) << 1);
     match res {
         Some(c) => {
             let ok = oracle::upgrade_some(wd, t, &c, verdict);
@@ -762,6 +780,7 @@ fn op_try_unwrap(reg: Dst, cx: &Cx) {
         cc.try_unwrap()
     };
     wd.unwrapping.set(None);
+    wd.feature(FT_UNWRAP, res.is_ok() as u64, 0);
     match res {
         Ok(v) => {
             // the register no longer holds a handle
@@ -812,6 +831,7 @@ fn op_finalize_again(reg: Dst, cx: &Cx) {
             r
         };
         let after = cell.borrow().as_ref().map(|c| c.already_finalized()).unwrap_or(before);
+        wd.feature(FT_FINAGAIN, res.is_ok() as u64, before as u64 | (after as u64) << 1);
         oracle::finalize_again_result(wd, id, res.is_ok(), before, after, cx.is_top());
     }
     #[cfg(not(feature = "finalization"))]
@@ -1065,8 +1085,10 @@ fn op_clean(c: u8, cx: &Cx) {
         }
     }
     let pop = PopCleaning;
+    let cb0 = wd.cb_total.get();
     let _ = api(Frame::ApiClean, cx, "Cleanable::clean", || cl.clean());
     drop(pop);
+    wd.feature(FT_CLEAN, (wd.cb_total.get() - cb0).min(3), 0);
     oracle::post_clean(wd, oid, idx, &pre);
     // put the cleanable back unless the program dropped / replaced it meanwhile
     let still = wd.m.borrow().cr[i] == Some((oid, idx));
